@@ -573,6 +573,11 @@ def oracle(ctx, scale):
         S, ref, br, N, amp, cs = _system_case(ctx, long=(k % 10 in (3, 6)))
         Y = S.response(N, amp)
         m2 = 2 * S.m
+        # which premise form of Props/C01Excite covers the case: the generated systems are modal (pairwise distinct non-zero poles,
+        # every |amp_k| = 1, every mode visible at a reference), so C01_e2e_*_excited always applies (reference observability with
+        # br + 1 block rows is what the generator's observability index guarantees); the purely modal sufficient condition of
+        # C01_e2e_*_modal needs n <= br + 1 and n <= averaged samples in addition
+        ctx.count("premises_modal_sufficient" if (m2 <= br + 1 and m2 <= N - 2 * br - 2) else "premises_excited_form_only")
         inp = {"fn": S.fn.tolist(), "xi": S.xi.tolist(), "phi": [[str(v) for v in r] for r in S.phi.tolist()], "fs": S.fs,
                "ref": ref, "br": br, "N": N, "amp": [str(a) for a in amp]}
         for method in ("cov_mm", "dat"):
